@@ -5,39 +5,43 @@ EXTENDS Bus, TLC, Json, IOUtils
 
 Rec == ndJsonDeserialize(IOEnv.TRACE)
 VARIABLES l, a, srclen, skip,
+          bus,    \* the Bus handle still exists (a `drop_bus` event drops it: outputs live on, the backlog hook is gone)
           lock,   \* this execution pulls all outputs in lock step (C07's bus clause applies)
           hw      \* heap footprint (live bytes) at the end of the first lock-step round, -1 before
-vars == << l, a, srclen, skip, lock, hw >>
+vars == << l, a, srclen, skip, lock, hw, bus >>
 Ev == Rec[l]
 Consume == l <= Len(Rec) /\ l' = l + 1
 
 SrcVal(f) == IF srclen < 0 \/ f <= srclen THEN f ELSE 0      \* finite sources continue with equilibrium
 SrcExh(x) == srclen >= 0 /\ x.pulled >= srclen
 \* o.pend = list of [key, pending_frames, is_exhausted] over the live outputs
-ObsOK(o, x) ==
+ObsOK(o, x, b) ==
   /\ o.ok
   /\ {o.pend[i][1] : i \in 1..Len(o.pend)} = ALive(x) /\ Len(o.pend) = Cardinality(ALive(x))
   /\ \A i \in 1..Len(o.pend) :
         /\ o.pend[i][2] = ALag(x, o.pend[i][1])               \* pending = pulled but not yet received
         /\ o.pend[i][3] = (ALag(x, o.pend[i][1]) = 0 /\ SrcExh(x))
   /\ o.pulls = x.pulled                                       \* one pull per distinct frame
-  /\ o.backlog = ABacklog(x)                                  \* exactly what the slowest live output lacks
+  /\ o.backlog = (IF b THEN ABacklog(x) ELSE -1)             \* exactly what the slowest live output lacks
 K == Ev.a.key
 Step == CASE Ev.ev = "send" -> [ret |-> [k |-> "unit"], a |-> ASend(a, K)]
           [] Ev.ev = "next" -> LET r == ANextFrame(a, K) IN [ret |-> [k |-> "val", v |-> SrcVal(r.frame)], a |-> r.a]
           [] Ev.ev = "drop" -> [ret |-> [k |-> "unit"], a |-> ADrop(a, K)]
+          [] Ev.ev = "drop_bus" -> [ret |-> [k |-> "unit"], a |-> a]      \* the handle is not an output: nothing changes for them
 \* C07: the bus may allocate, but pulled in lock step its backlog holds at most one frame and its
 \* heap footprint stops growing after the first round
 LockOK == ~lock \/ (/\ Ev.o.backlog <= 1
                     /\ (Ev.ev = "mark" => Ev.o.backlog = 0 /\ (hw >= 0 => Ev.o.live <= hw)))
-AcceptMark == Ev.ev = "mark" /\ Ev.r.k = "unit" /\ ObsOK(Ev.o, a)
-AcceptOp == /\ \/ Ev.ev = "send" /\ K \notin ALive(a)
+BusNext == bus /\ Ev.ev # "drop_bus"
+AcceptMark == Ev.ev = "mark" /\ Ev.r.k = "unit" /\ ObsOK(Ev.o, a, bus)
+AcceptOp == /\ \/ Ev.ev = "send" /\ K \notin ALive(a) /\ bus
                \/ Ev.ev \in {"next", "drop"} /\ K \in ALive(a)
-            /\ Ev.r = Step.ret /\ ObsOK(Ev.o, Step.a)
-AcceptReset == Ev.r.k = "unit" /\ ObsOK(Ev.o, AInit)
+               \/ Ev.ev = "drop_bus" /\ bus
+            /\ Ev.r = Step.ret /\ ObsOK(Ev.o, Step.a, BusNext)
+AcceptReset == Ev.r.k = "unit" /\ ObsOK(Ev.o, AInit, TRUE)
 
 TReset == /\ Consume /\ Ev.ev = "reset" /\ srclen' = Ev.cfg.srclen
-          /\ lock' = ("lockstep" \in DOMAIN Ev.cfg) /\ hw' = -1
+          /\ lock' = ("lockstep" \in DOMAIN Ev.cfg) /\ hw' = -1 /\ bus' = TRUE
           /\ IF AcceptReset THEN a' = AInit /\ skip' = FALSE
              ELSE PrintT(<< "REJECT", l, Ev.ev >>) /\ skip' = TRUE /\ UNCHANGED a
 HeapLine == IF LockOK THEN TRUE ELSE PrintT(<< "HEAP", l, Ev.ev >>)   \* C07's lock-step clause, judged on its own
@@ -46,20 +50,21 @@ TOp == /\ Consume /\ Ev.ev # "reset" /\ ~skip /\ UNCHANGED lock
        /\ IF Ev.ev = "mark"
             THEN IF AcceptMark
                    THEN /\ hw' = IF hw < 0 THEN Ev.o.live ELSE hw
-                        /\ UNCHANGED << a, srclen, skip >>
-                   ELSE PrintT(<< "REJECT", l, Ev.ev >>) /\ skip' = TRUE /\ UNCHANGED << a, srclen, hw >>
+                        /\ UNCHANGED << a, srclen, skip, bus >>
+                   ELSE PrintT(<< "REJECT", l, Ev.ev >>) /\ skip' = TRUE /\ UNCHANGED << a, srclen, hw, bus >>
             ELSE IF AcceptOp
                    THEN /\ a' = Step.a
                         \* the footprint is compared between rounds with the same set of outputs: attaching or
                         \* dropping an output may legitimately change it once (e.g. the backlog's storage is first
                         \* needed when a second output appears), so the reference is taken anew at the next mark
-                        /\ hw' = IF Ev.ev \in {"send", "drop"} THEN -1 ELSE hw
+                        /\ hw' = IF Ev.ev \in {"send", "drop", "drop_bus"} THEN -1 ELSE hw
+                        /\ bus' = BusNext
                         /\ UNCHANGED << srclen, skip >>       \* otherwise the bus is exempt from the no-allocation rule
-                   ELSE PrintT(<< "REJECT", l, Ev.ev >>) /\ skip' = TRUE /\ UNCHANGED << a, srclen, hw >>
+                   ELSE PrintT(<< "REJECT", l, Ev.ev >>) /\ skip' = TRUE /\ UNCHANGED << a, srclen, hw, bus >>
 \* (after a functional rejection the rest of the execution is not judged for C13, but the lock-step
 \* clause of C07 only reads the logged backlog / footprint, so it still is)
-TSkip == Consume /\ Ev.ev # "reset" /\ skip /\ HeapLine /\ UNCHANGED << a, srclen, skip, lock, hw >>
-TraceInit == l = 1 /\ a = AInit /\ srclen = -1 /\ skip = TRUE /\ lock = FALSE /\ hw = -1
+TSkip == Consume /\ Ev.ev # "reset" /\ skip /\ HeapLine /\ UNCHANGED << a, srclen, skip, lock, hw, bus >>
+TraceInit == l = 1 /\ a = AInit /\ srclen = -1 /\ skip = TRUE /\ lock = FALSE /\ hw = -1 /\ bus = TRUE
 TraceNext == TReset \/ TOp \/ TSkip
 TraceSpec == TraceInit /\ [][TraceNext]_vars
 AllConsumed == IF TLCGet("stats").diameter - 1 = Len(Rec) THEN TRUE
